@@ -179,7 +179,8 @@ def _c10_tasks(tier, seed):
                 for buf in (("no",) if fam in (0, 3) else ("no", "ctx", "cap0")):
                     out.append(("unit_c10_faults", (fam, is_dict, nested, buf, seed)))
         out.append(("unit_c10_filename", (fam, seed)))
-    out += _conc_tasks([("bufctx", [1, 2]), ("buffered", [1, 2]), ("writers", [0, 1])], (10, 1, 120, 4), (60, 2, 1500, 30))(tier, seed)
+    out += _conc_tasks([("bufctx", [1, 2]), ("buffered", [1, 2]), ("writers", [0, 1]), ("rebind", [0, 1, 2, 3])],
+                       (10, 1, 120, 4), (60, 2, 1500, 30))(tier, seed)
     return out
 
 
@@ -245,7 +246,7 @@ PROPS["C16"] = dict(
          "independent.  Correspondence: handle identities of returned children (numbered by first appearance) agree between model and code.",
     assumptions=SEQ_ASSUME + ["identity is a modelled notion: node ids in the model, id() of the built-in containers in the implementation"])
 SPECIAL["c09"] = _conc_tasks([("writers", [0, 3, 1, 2])], (14, 1, 160, 6), (80, 2, 2500, 40))
-SPECIAL["c13"] = _conc_tasks([("buffered", [1, 2, 4, 5])], (12, 1, 160, 6), (70, 2, 2500, 40))
+SPECIAL["c13"] = _conc_tasks([("buffered", [1, 2, 4, 5])], (24, 1, 160, 6), (70, 2, 2500, 40))
 SPECIAL["c14"] = _conc_tasks([("readers", [0, 3, 1, 2])], (14, 1, 160, 6), (80, 2, 2500, 40))
 SPECIAL["c10"] = _c10_tasks
 CONC_RULE = ("generated programs of 2-3 threads x 1-2 operations (every public mutator incl. clear/reset/pop/reverse, on the root, on a second "
